@@ -233,6 +233,7 @@ Definition hs_extState (m : mem) (src n cap level : Z) : option hsres := hs_fast
 (* ---------------------------------------------------------------- LZ4_saveDictHC *)
 Definition hs_saveDict (m : mem) (c : hsctx) (safeBuffer dictSize : Z) : mem * hsctx * Z :=
   let k := hs_core c in
+  if k_prefixStart k =? 0 then (m, c, 0) else        (* stream not started yet: nothing to save, context left un-anchored (fix F17) *)
   let prefixSize := k_end k - k_prefixStart k in
   let ds := if dictSize >? K64 then K64 else dictSize in
   let ds := if ds <? 4 then 0 else ds in
